@@ -138,6 +138,11 @@ func (Predecode) Run(c *orch.Case) *orch.Outcome {
 		}
 		enc = strings.TrimRight(enc, "=")
 	case "urlsafe":
+		// (a trailing comment made of ">" and "?" is added until the standard encoding contains "+" or "/" to replace)
+		for n := 0; n < 4 && !strings.ContainsAny(enc, "+/"); n++ {
+			doc = append(doc, []byte("<!--?>?>?>-->")...)
+			enc = idp.Encode(doc, in.Deflate)
+		}
 		enc = strings.NewReplacer("+", "-", "/", "_").Replace(enc)
 	case "lines":
 		var sb strings.Builder
